@@ -50,12 +50,13 @@ def run_cases(ck, res, n_cases, n_interval):
                 net = make_net([net_p])
             f = lambda th, ph: f_p.torch(th, ph)
             g = lambda th, ph: g_p.torch(th, ph)
+            pos = r.random() < 0.3        # documented positional order: (r_0, f, r_1, g) / (r_0, f, g, order)
             if kind == 'shell2':
-                cond = C.DirichletBVPSpherical(r_0=r0, f=f, r_1=r1, g=g)
+                cond = C.DirichletBVPSpherical(r0, f, r1, g) if pos else C.DirichletBVPSpherical(r_0=r0, f=f, r_1=r1, g=g)
             elif kind == 'shell1':
-                cond = C.DirichletBVPSpherical(r_0=r0, f=f)
+                cond = C.DirichletBVPSpherical(r0, f) if pos else C.DirichletBVPSpherical(r_0=r0, f=f)
             else:
-                cond = C.InfDirichletBVPSpherical(r_0=r0, f=f, g=g, order=k)
+                cond = C.InfDirichletBVPSpherical(r0, f, g, k) if pos else C.InfDirichletBVPSpherical(r_0=r0, f=f, g=g, order=k)
             rs = [r0] + ([r1] if kind == 'shell2' else []) + [rr() for _ in range(3)]
             nd = lambda v: v + r.choice([0.01, 0.003, 1.0 / 300.0]) if r.random() < 0.4 else v      # not float32-representable
             ths = [nd(dy(r, 0, 3.125, 4)) for _ in rs]
@@ -114,12 +115,13 @@ def run_cases(ck, res, n_cases, n_interval):
                     return v[0]
                 t = torch.tensor(v, dtype=torch.float64)
                 return t.reshape(1, W) if shape == 'row' else t
+            pos = r.random() < 0.3        # documented positional order: (r_0, R_0, r_1, R_1) / (r_0, R_0, R_inf, order)
             if kind == 'basis2':
-                cond = C.DirichletBVPSphericalBasis(r_0=r0, R_0=as_t(R0v), r_1=r1, R_1=as_t(R1v))
+                cond = C.DirichletBVPSphericalBasis(r0, as_t(R0v), r1, as_t(R1v)) if pos else C.DirichletBVPSphericalBasis(r_0=r0, R_0=as_t(R0v), r_1=r1, R_1=as_t(R1v))
             elif kind == 'basis1':
-                cond = C.DirichletBVPSphericalBasis(r_0=r0, R_0=as_t(R0v))
+                cond = C.DirichletBVPSphericalBasis(r0, as_t(R0v)) if pos else C.DirichletBVPSphericalBasis(r_0=r0, R_0=as_t(R0v))
             else:
-                cond = C.InfDirichletBVPSphericalBasis(r_0=r0, R_0=as_t(R0v), R_inf=as_t(R1v), order=k)
+                cond = C.InfDirichletBVPSphericalBasis(r0, as_t(R0v), as_t(R1v), k) if pos else C.InfDirichletBVPSphericalBasis(r_0=r0, R_0=as_t(R0v), R_inf=as_t(R1v), order=k)
             rs = [r0] + ([r1] if kind == 'basis2' else []) + [rr() for _ in range(2)]
             if kind == 'inf_basis':
                 rs += [r0 + 12.0 / min(k, 2.0), r0 + 24.0 / min(k, 2.0)]
